@@ -88,9 +88,8 @@ where
             let guard = map.guard();
 
             while let Some((key, value)) = access.next_entry()? {
-                if let Some(_old_value) = map.insert(key, value, &guard) {
-                    unreachable!("Serialized map held two values with the same key");
-                }
+                // a well-formed document may repeat a key; like `std`, keep the last value
+                map.insert(key, value, &guard);
             }
         }
 
